@@ -116,6 +116,10 @@ pub fn err_class(e: &dyn std::fmt::Debug) -> String {
 pub fn io_err_class(e: &std::io::Error) -> String {
     match e.get_ref() {
         Some(inner) => {
+            // an io::Error wrapped in an io::Error: the innermost one names the cause
+            if let Some(io) = inner.downcast_ref::<std::io::Error>() {
+                return io_err_class(io);
+            }
             let dbg = format!("{inner:?}");
             if dbg.starts_with('"') {
                 // a plain message: `io::Error::new(kind, "text")`
